@@ -284,6 +284,23 @@ func TestC14Reopen(t *testing.T) {
 		}
 		defer os.RemoveAll(dir)
 		path := filepath.Join(dir, "relay.db")
+		var hist []any
+		// the very first start of the process may be cut short as well: the schema set-up fails at
+		// its k-th statement, the file is closed, and the next start has to complete the set-up
+		if rapid.IntRange(0, 2).Draw(t, "first_open_interrupted") == 0 {
+			k := rapid.IntRange(0, 13).Draw(t, "first_open_fails_at_statement")
+			fdb, err := sql.Open("sqlite3_verif_fault", "file:"+path+"?_busy_timeout=5000")
+			if err != nil {
+				t.Fatalf("open (fault driver): %v", err)
+			}
+			fdb.SetMaxOpenConns(1)
+			theFaultCtl.arm(k)
+			merr := mocsqlite.Migrate(context.Background(), fdb)
+			_, fired := theFaultCtl.disarm()
+			fdb.Close()
+			hist = append(hist, map[string]any{"op": "first open interrupted", "fails_at_statement": k, "fired": fired, "migrate_error": fmt.Sprint(merr)})
+			col.Label("first-open-interrupted")
+		}
 		db, seed, err := openFile(path)
 		if err != nil {
 			t.Fatalf("open: %v", err)
@@ -293,7 +310,6 @@ func TestC14Reopen(t *testing.T) {
 		world := &gen.World{Authors: gen.Pubkeys(2)}
 		cfg := &gen.StoreCfg{World: world, TsBase: 1000, TsSpan: 5, NoNoD: true, NoOpenRefs: true}
 		m := model.NewSQLModel()
-		var hist []any
 		desc := func() any { return hist }
 		nb := rapid.IntRange(2, 7).Draw(t, "batches")
 		reopens := 0
